@@ -762,10 +762,14 @@ def spell(repo):
         raise AnalysisError("no class-level template parameter of the generated view classes recognised")
     for tpn in sorted(tparams):
         res.instances += 1
-        if relative and spellable(tpn, "CamelWord"):
+        if spellable(tpn, "CamelWord") and (relative or using_schema):
+            what = []
+            if relative:
+                what.append(f"for `struct {tpn}` the relative references `{tpn}::...` to the type's namespace name the template parameter instead")
+            if using_schema:
+                what.append(f"a nested `enum {tpn}` is imported into the class with `using {tpn} = ...`, which re-declares the template parameter")
             res.add(f"spell|template-parameter|{tpn}", f"the generated view classes are templates over `{tpn}`, and `{tpn}` is a legal Emboss type "
-                    f"name: for `struct {tpn}` the relative references `{tpn}::...` to the type's namespace name the template parameter "
-                    f"instead, and a nested `enum {tpn}` re-declares it (`using {tpn} = ...`); the header does not compile",
+                    f"name: {'; '.join(what)}; the header does not compile",
                     TEMPLATES, tp["structure_view_class"]["line"])
     res.samples = [f"constants: {sorted(constants)[:6]}", f"pairs: {[(a, b) for a, b, _, _ in pairs]}", f"template parameters: {sorted(tparams)}"]
     res.analysed = [TEMPLATES, HG, G.TOKENIZER, "compiler/front_end/reserved_words"]
@@ -1950,4 +1954,38 @@ def fieldreader(repo):
                                 "position (`[requires: $present(this) && this < 5]` on a conditional field) ends the back end with "
                                 "AssertionError", hg.rel, n.lineno, f"{c.name}.{need}")
     res.analysed = [hg.rel]
+    return res
+
+
+def qualns(repo):
+    """R-QUALNS (C07): the constants and validators of a structure `Foo` live in `namespace Foo` next to the view class
+    `GenericFooView`.  Inside that class (and in its member functions) the bare name `Foo` is looked up in class scope
+    first, where a nested or inline enum of the same name (`struct Mode: 0 [+1] enum mode: ...` -> `using Mode = ...`)
+    or the template parameter hides the namespace: `Foo::IntrinsicSizeInBytes()` then names a member of the enum.
+    Decided: no template refers to the type's namespace by the bare `${parent_type}::`, and the validator type handed
+    to the view templates is built from `_get_fully_qualified_namespace(...)`."""
+    res = RuleResult("R-QUALNS")
+    tp = Templates(repo)
+    res.instances = 2
+    for name_, t in sorted(tp.templates.items()):
+        text = re.sub(r"//[^\n]*", "", t["text"])
+        for mm in re.finditer(r"(?<![:\w}])\$\{parent_type\}::", text):
+            res.add(f"{TEMPLATES}|{name_}|relative-namespace", f"template {name_} refers to the type's namespace as `${{parent_type}}::...` from inside the "
+                    "view class: a nested or inline enum with the structure's own name (or a structure named like the template "
+                    "parameter) hides the namespace and the header does not compile", TEMPLATES, t["line"], name_)
+            break
+    hg = repo.mod(HG)
+    f = hg.funcs.get("_generate_validator_type_for")
+    if f is None:
+        raise AnalysisError("header_generator._generate_validator_type_for not found")
+    ok = False
+    for n in walk_no_nested_funcs(f.node):
+        if isinstance(n, ast.Call) and isinstance(n.func, ast.Attribute) and n.func.attr == "format" and isinstance(n.func.value, ast.Constant) \
+                and n.func.value.value == "{}::{}" and n.args and isinstance(n.args[0], ast.Call) \
+                and (call_name(n.args[0]) or "").endswith("_get_fully_qualified_namespace"):
+            ok = True
+    if not ok:
+        res.add(f"{hg.rel}|_generate_validator_type_for|relative", "_generate_validator_type_for names the validator `<Type>::EmbossReservedValidatorFor...` "
+                "relative to the bare type name: inside the view class a nested enum of the same name hides the namespace", hg.rel, f.node.lineno, f.name)
+    res.analysed = [TEMPLATES, hg.rel]
     return res
